@@ -248,6 +248,17 @@ def cases(rng, tier, shard, nshards):
             else:
                 e = [float(np.round(rng.normal(), 1)) for _ in range(3)]
             yield dict(kind='triple', e=e)
+        elif u < 0.89:
+            # integer-valued geometric triples handed over in other legal types (Python ints, numpy integers, integer arrays,
+            # lists, plain Python floats, a mix)
+            q = int(rng.choice([-4, -3, -2, 2, 3, 4])) if rng.random() < 0.6 else 0
+            L, m = int(rng.integers(-20, 21)), int(rng.integers(1, 9)) * int(rng.choice([-1, 1]))
+            if q:
+                k0 = int(rng.integers(0, 3))
+                e = [L + m * q ** (k0 + k) for k in range(3)]
+            else:
+                e = [L + 4 * m, L + 2 * m, L + m]            # q = 1/2
+            yield dict(kind='typed', e=e, L=L, form=str(rng.choice(['int', 'np_int64', 'int_array', 'list', 'pyfloat', 'mixed', 'int32_array'])))
         elif u < 0.97:
             shape = [int(s) for s in rng.integers(1, 5, size=int(rng.integers(0, 4)))]
             yield dict(kind='array', shape=shape, seed=int(rng.integers(0, 2 ** 31)))
@@ -293,6 +304,22 @@ def run_case(case, ctx):
             return
         res, err = out
         check_triple(ctx, e, float(res[0]), float(err[0]))
+    elif kind == 'typed':
+        e, form = case['e'], case['form']
+        args = {'int': [int(v) for v in e], 'np_int64': [np.int64(v) for v in e], 'int_array': [np.array([v]) for v in e],
+                'int32_array': [np.array([v], dtype=np.int32) for v in e],
+                'list': [[int(v)] for v in e], 'pyfloat': [float(v) for v in e],
+                'mixed': [int(e[0]), float(e[1]), np.int64(e[2])]}[form]
+        try:
+            res, err = dea3(*args)
+        except Exception as exc:
+            ctx.reject('raised', observed=repr(exc), detail=dict(e=list(e), form=form))
+            return
+        ctx.count('typed_inputs:' + form)
+        if np.shape(res) != (1,) or np.shape(err) != (1,):
+            ctx.reject('shape', observed=[list(np.shape(res)), list(np.shape(err))], expected=[[1], [1]], detail=dict(form=form))
+            return
+        check_triple(ctx, tuple(float(v) for v in e), float(res[0]), float(err[0]), L=float(case['L']))
     elif kind == 'array':
         rng = np.random.default_rng(case['seed'])
         shape = tuple(case['shape'])
